@@ -202,9 +202,11 @@ class TransferLib(Stream):
     def generate(self, rng, tier):
         rates = [-1, 0, 1, 255, 256, 65535, 65536, 2 ** 32 - 1, 2 ** 32, 4 * 10 ** 12]
         cs = []
-        for i in range(150 if tier == "quick" else 5000):
-            dl = rates[i % len(rates)] if i < 3 * len(rates) else rng.choice(rates + [rng.below(4 * 10 ** 12)])
-            cs.append({"dl": dl, "ul": rng.choice([r for r in rates if r >= 0] + [rng.below(4 * 10 ** 12)]), "addr": rng.bytes(4).hex(),
+        for i in range(300 if tier == "quick" else 8000):
+            # values whose octets look like IE headers of the transfer (ids 130, 139, 134, 136, criticality, lengths)
+            idlike = lambda: min(4 * 10 ** 12, int.from_bytes(bytes(rng.choice([0x00, 0x8b, 0x82, 0x86, 0x88, 0x01, 0x0a, 0x40]) for _ in range(rng.range(1, 5))), "big"))
+            dl = rates[i % len(rates)] if i < 3 * len(rates) else rng.choice(rates + [rng.below(4 * 10 ** 12), idlike(), idlike()])
+            cs.append({"dl": dl, "ul": rng.choice([r for r in rates if r >= 0] + [rng.below(4 * 10 ** 12), idlike(), idlike()]), "addr": rng.bytes(4).hex(),
                        "teid": rng.choice([bytes(4), b"\xff" * 4, rng.bytes(4)]).hex(), "pdutype": rng.choice([-1, 0, 1, 2]), "qfi": rng.below(64)})
         return cs
 
